@@ -65,6 +65,7 @@ def report(rep, results, label):
     """Judge scenario traces with CheckpointTrace.tla; results: list of (sc, trace, gens)."""
     traces = [t for _, t, _ in results]
     acc, rej, drift, tl = C.judge_traces("CheckpointTrace", traces, chunk=500, what=label)
+    rep.extra_drift = drift
     for r in tl:
         rep.add_tlc("CheckpointTrace " + label, r)
     rep.traces += len(traces)
